@@ -146,8 +146,10 @@ Definition qfn := nat -> list bool -> arr -> arr.   (* quantity name -> mask -> 
 Inductive src := SIn (i : nat) | SObj (j : nat).
 Inductive op :=
 | ONew (v : arr)                                   (* the caller creates an ndarray / a settings object *)
-| OConstruct (s : src) (mask : list bool) (is_native store_native : bool)
-                                                   (* Array2D / Grid2D / VectorYX2D / Kernel2D (values=s, mask=mask, store_native) *)
+| OConstruct (s : src) (mask : list bool) (is_native store_native : bool) (norm : option nat)
+                                                   (* Array2D / Grid2D / VectorYX2D / Kernel2D (values=s, mask=mask, store_native);
+                                                      norm = Some q: Kernel2D(..., normalize=True), q names the normalised contents;
+                                                      x.native / x.slim / psf.normalized are constructions from the object itself *)
 | OAlias (j : nat)                                 (* Imaging(data=x): the reference is stored *)
 | OArith (j : nat) (ks : list Z) (b : Z)           (* x * k + b, -x, b - x, mask.invert() : with_new_array(f(self._array)) *)
 | OSlice (j : nat) (keep : list bool)              (* x[a:b] : with_new_array(self._array[item]) *)
@@ -227,7 +229,7 @@ Definition step (qf : qfn) (p : policy) (st : state) (o : op) : state * obs * ef
   | ONew v =>
       let (h1, c) := halloc h v in
       (mkState h1 (st_inputs st ++ [c]) (st_objs st), Ok v, eff0)
-  | OConstruct s mask is_native store_native =>
+  | OConstruct s mask is_native store_native norm =>
       let source :=
         match s with
         | SIn i => option_map (fun c => (c, is_native)) (nth_error (st_inputs st) i)
@@ -242,15 +244,21 @@ Definition step (qf : qfn) (p : policy) (st : state) (o : op) : state * obs * ef
           if negb (Nat.eqb (length (hget h1 c1)) (if nat0 then length mask else count_false mask))
           then (mkState h1 (st_inputs st) (st_objs st), Raise ArrayException, eff0)
           else
-            (* if is_native: array_2d *= np.invert(mask_2d)      -- IN PLACE *)
+            (* if is_native: array_2d[np.array(mask_2d, dtype="bool")] = 0      -- IN PLACE (was `array_2d *= np.invert(mask_2d)`) *)
             let '(h2, w) := if nat0 then (hset h1 c1 (maskmul mask (hget h1 c1)), [c1]) else (h1, []) in
             (* if is_native == store_native: return array_2d ; else a new slim / native array *)
             let '(h3, c3) :=
               if Bool.eqb nat0 store_native then (h2, c1)
               else if store_native then halloc h2 (native_from mask (hget h2 c1))
                    else halloc h2 (slim_from mask (hget h2 c1)) in
-            (mkState h3 (st_inputs st) (st_objs st ++ [mkObj c3 mask store_native []]),
-             Ok (hget h3 c3), mkEff w (length h) false)
+            (* Kernel2D.__init__: if normalize: self._array[:] = np.divide(self._array, np.sum(self._array))   -- IN PLACE *)
+            let '(h4, w') :=
+              match norm with
+              | Some q => (hset h3 c3 (qf q mask (hget h3 c3)), [c3])
+              | None => (h3, [])
+              end in
+            (mkState h4 (st_inputs st) (st_objs st ++ [mkObj c3 mask store_native []]),
+             Ok (hget h4 c3), mkEff (w ++ w') (length h) false)
       end
   | OAlias j =>
       match nth_error (st_objs st) j with
@@ -397,7 +405,7 @@ Definition sstep (qf : qfn) (sp : sstate) (o : op) : sstate * obs :=
   let newobj (so : sobj) := mkSState (sp_inputs sp) (sp_objs sp ++ [so]) in
   match o with
   | ONew v => (mkSState (sp_inputs sp ++ [v]) (sp_objs sp), Ok v)
-  | OConstruct s mask is_native store_native =>
+  | OConstruct s mask is_native store_native norm =>
       let source :=
         match s with
         | SIn i => option_map (fun v => (v, is_native)) (nth_error (sp_inputs sp) i)
@@ -412,7 +420,8 @@ Definition sstep (qf : qfn) (sp : sstate) (o : op) : sstate * obs :=
             let v1 := if nat0 then maskmul mask v else v in
             let v2 := if Bool.eqb nat0 store_native then v1
                       else if store_native then native_from mask v1 else slim_from mask v1 in
-            (newobj (mkSObj v2 mask store_native), Ok v2)
+            let v3 := match norm with Some q => qf q mask v2 | None => v2 end in
+            (newobj (mkSObj v3 mask store_native), Ok v3)
       end
   | OAlias j | OCopy j =>
       match nth_error (sp_objs sp) j with
